@@ -17,7 +17,7 @@ SCHED_OPS = ("observe_on", "subscribe_on")
 
 
 def _root_mod(t):
-    parts = t["root"].split("::")
+    parts = t["root"].lstrip("<").split("::")
     return parts[1] if len(parts) > 1 and parts[0] in ("operators", "observables", "subjects", "utils") else parts[0]
 
 
